@@ -20,6 +20,16 @@ its strips of (A, P, R, A_c) of every level (recorded by the coarsening wrapper)
                      (also across the merge repartitioning);
   direct solver      mpi::direct::skyline_lu returns the solution of the gathered system (exactly
                      recomputed residual <= tolerance) on every rank layout, twice.
+  near-null space    op `pmis` runs amgcl::mpi::coarsening::pmis<Backend> itself (aggregation + tentative
+                     prolongation) and `solve` with ns.cols/ns.B runs the whole hierarchy with
+                     coarsening.aggr.nullspace.cols in {1,2,3} (B = [1, x + 3/8 y, y - 3/16 x] on grids, block_size 1
+                     and 2) on 2..8 ranks with thin / uneven strips (one grid line per rank, empty ranks), so that an
+                     aggregate owner has members from >= 2 other ranks.  Checked on the gathered operators by the
+                     extracted Coq specification (PmisSpec.v): P_tent B_coarse = B on every aggregated row (also the
+                     rows whose aggregate lives on another rank), orthonormal columns of P_tent, global partition into
+                     whole non-empty aggregates, unknown left out iff no strong connection, A_c = scale R A P, the
+                     coarse near-null space of level l is the near-null space level l+1 starts from and is distributed
+                     like the rows of that level.
 """
 import random, re
 from fractions import Fraction as F
@@ -110,12 +120,103 @@ def cases(tier, seed):
         for it in range(20 if quick else 100):
             n, M, p, f = system(np_, 1, 40 if quick else 120, empty_bias=0.35)
             add(np_, "direct", fmt_crs(n, n, M), fmt_ivec(p), fmt_vec(f))
+    # ---- distributed aggregation with a near-null space (thin strips, 2..8 ranks)
+    for np_ in ([2, 3, 4, 5, 6, 8] if quick else [2, 3, 4, 5, 6, 7, 8]):
+        for K in (0, 1, 2, 3):
+            for bs in (1, 2):
+                for _ in range(3 if quick else 10):
+                    n, M, p, B = ns_system(r, np_, K, bs)
+                    eps = r.choice(["2/25", "2/25", "1/4", "1/8", "0"])
+                    add(np_, "pmis", "eps_strong=%s block_size=%d" % (eps, bs), "--", fmt_crs(n, n, M), fmt_ivec(p), K, fmt_vec(B))
+        for K in (1, 2, 3):
+            for c in COARSENINGS:
+                for _ in range(2 if quick else 6):
+                    bs = r.choice([1, 1, 2])
+                    n, M, p, B = ns_system(r, np_, K, bs)
+                    pre = "precond."
+                    cfg = ["precond.class=amg", pre + "coarsening.type=" + c, pre + "relax.type=" + r.choice(["spai0", "damped_jacobi", "ilu0"]),
+                           pre + "coarse_enough=%d" % r.choice([1, 2, 4]), pre + "direct_coarse=true",
+                           pre + "repart.enable=%s" % r.choice(["false", "false", "true"]), pre + "repart.shrink_ratio=%d" % r.choice([2, 8]),
+                           pre + "coarsening.aggr.eps_strong=%s" % r.choice(["2/25", "1/8", "0"]),
+                           pre + "coarsening.aggr.block_size=%d" % bs]
+                    if c == "aggregation": cfg.append(pre + "coarsening.over_interp=%d" % r.choice([1, 2]))
+                    cfg += ["ns.cols=%d" % K, "ns.B=" + ",".join(fmt_q(v) for v in B)]
+                    cfg += ["solver.type=" + r.choice(["cg", "bicgstab", "gmres"]), "solver.tol=" + TOL, "solver.maxiter=%d" % MAXITER]
+                    f = [F(r.randint(-4, 4), r.choice([1, 2])) for _ in range(n)]
+                    if all(v == 0 for v in f): f[0] = F(1)
+                    add(np_, "solve", " ".join(cfg), "--", fmt_crs(n, n, M), fmt_ivec(p), fmt_vec(f), fmt_vec([F(0)] * n), 1)
     return out
+
+
+def grid_spd(r, nx, ny, bs=1):
+    """SPD M-matrix with dyadic entries on an nx x ny grid (point g = j*nx + i, bs unknowns per point, unknown
+    g*bs + k), 5-point stencil plus a few diagonal links; returns (rows, coordinates per unknown)"""
+    W = [F(1), F(1), F(2), F(1, 2)]
+    n = nx * ny * bs
+    rows = [dict() for _ in range(n)]
+    def link(a, b, w):
+        if a == b or b in rows[a]: return
+        rows[a][b] = -w; rows[b][a] = -w
+    diag9 = r.random() < 0.3
+    for j in range(ny):
+        for i in range(nx):
+            g = j * nx + i
+            nb = []
+            if i + 1 < nx: nb.append(g + 1)
+            if j + 1 < ny: nb.append(g + nx)
+            if diag9 and i + 1 < nx and j + 1 < ny and r.random() < 0.5: nb.append(g + nx + 1)
+            for h in nb:
+                w = r.choice(W)
+                for k in range(bs): link(g * bs + k, h * bs + k, w)
+                if bs > 1 and r.random() < 0.3: link(g * bs, h * bs + 1, F(1, 2))
+            if bs > 1:
+                for k in range(bs - 1): link(g * bs + k, g * bs + k + 1, F(1, 2))
+    for a in range(n):
+        rows[a][a] = sum(-v for v in rows[a].values()) + r.choice([F(0), F(0), F(1, 2), F(1)])
+        if rows[a][a] == 0: rows[a][a] = F(1)
+    if all(rows[a][a] == sum(-v for c, v in rows[a].items() if c != a) for a in range(n)): rows[0][0] += 1
+    xy = [((a // bs) % nx, (a // bs) // nx, a % bs) for a in range(n)]
+    return [sorted(rw.items()) for rw in rows], xy
+
+
+def thin_strips(r, nx, ny, np_, bs):
+    """contiguous partition of the nx*ny*bs unknowns into np_ strips: about one grid line per rank (+- a point),
+    some ranks empty, the remainder on the first or the last rank (or spread); sizes are multiples of bs"""
+    npts = nx * ny
+    kind = r.choice(["rest-last", "rest-first", "rest-middle", "jitter"])
+    sz = []
+    for k in range(np_):
+        w = nx + (r.choice([-1, 0, 0, 0, 1, 2]) if kind == "jitter" or r.random() < 0.3 else 0)
+        if np_ > 2 and r.random() < 0.12: w = 0
+        sz.append(max(0, w))
+    fat = {"rest-last": np_ - 1, "rest-first": 0, "rest-middle": np_ // 2, "jitter": r.randrange(np_)}[kind]
+    sz[fat] = 0
+    over = sum(sz) - npts
+    k = 0
+    while over > 0:                       # too many lines for the grid: shrink from the front
+        d = min(sz[k % np_], over); sz[k % np_] -= d; over -= d; k += 1
+    sz[fat] = npts - sum(sz)
+    return [w * bs for w in sz]
+
+
+def ns_system(r, np_, K, bs):
+    nx = r.randint(3, 6)
+    ny = r.randint(max(3, np_), np_ + 4)
+    M, xy = grid_spd(r, nx, ny, bs)
+    p = thin_strips(r, nx, ny, np_, bs)
+    n = len(M)
+    B = []
+    for (x, y, k) in xy:
+        if bs == 1: full = [F(1), x + F(3, 8) * y, y - F(3, 16) * x]
+        else:       full = [F(1) if k == 0 else F(0), F(1) if k == 1 else F(0), x + F(3, 8) * y + k]
+        B += full[:K]
+    return n, M, p, B
 
 
 # ---------------------------------------------------------------- parsing the per-rank reports
 RANK_RE = re.compile(r"^((?:it=\S+ res=\S+ bits=\S+)(?: again it=\S+ res=\S+ bits=\S+)*) x=(\[[^\]]*\]) L (\d+)(.*)$")
-MAT_RE = re.compile(r"([APRC])(\{[^}]*\})")
+MAT_RE = re.compile(r"([APRCBN])(\{[^}]*\})")
+PMIS_RE = re.compile(r"^na=(\d+) P(\{[^}]*\})(?: N(\{[^}]*\}))? S(\{[^}]*\})$")
 
 def crs_tok(n, m, rows): return fmt_crs(n, m, rows)
 
@@ -136,7 +237,7 @@ class Cfg:
         self.kv = {}
         toks = rest.split(" ")
         i = 0
-        if op == "solve":
+        if op in ("solve", "pmis"):
             while toks[i] != "--":
                 k, v = toks[i].split("=", 1); self.kv[k] = v; i += 1
             i += 1
@@ -149,7 +250,13 @@ class Cfg:
         self.n, self.rows = n, rows
         self.A = " ".join(t[:p])
         k = int(t[p]); self.parts = [int(x) for x in t[p + 1:p + 1 + k]]; p += 1 + k
+        if op == "pmis":
+            self.K = int(t[p]); p += 1
+            k = int(t[p]); self.B = [F(x) for x in t[p + 1:p + 1 + k]]; p += 1 + k
+            return
         k = int(t[p]); self.f = [F(x) for x in t[p + 1:p + 1 + k]]; p += 1 + k
+        self.K = int(self.kv.get("ns.cols", "0"))
+        self.B = [F(x) for x in self.kv["ns.B"].split(",")] if self.K else []
 
 
 def check_solve(line, out, np_, olines, fails, ctx):
@@ -211,6 +318,10 @@ def check_solve(line, out, np_, olines, fails, ctx):
         if not levels: return fail("level log starts with A", got=k)
         levels[-1][k] = M
     coarsening = c.kv.get("precond.coarsening.type")
+    K = c.K; bs = int(c.kv.get("precond.coarsening.aggr.block_size", "1"))
+    strip_rows = lambda idx: [int(s[idx][1][1:].split(" ", 1)[0]) for s in seqs]      # rows per rank of a logged matrix
+    kinds = [k for k, _ in seqs[0]]
+    lvl_idx = [i for i, k in enumerate(kinds) if k == "A"]
     for li, L in enumerate(levels):
         if not all(k in L for k in "APR"): return fail("level has A, P, R", got=list(L))
         tok = {k: crs_tok(*L[k]) for k in L}
@@ -218,17 +329,48 @@ def check_solve(line, out, np_, olines, fails, ctx):
         if li == 0 and (L["A"][0] != c.n or sorted_rows(L["A"][2]) != sorted_rows(c.rows)):
             fail("finest level matrix is the system matrix", got=li)
         olines.append(("R = P^T", "%s.tr o.transpose %s %s" % (base, tok["P"], tok["R"])))
-        if coarsening == "aggregation":
-            olines.append(("aggregates partition the unknowns (no empty aggregate, one unit entry per aggregated row)",
-                           "%s.pa o.partition %s" % (base, tok["P"])))
-            eps = F(c.kv.get("precond.coarsening.aggr.eps_strong", "2/25"))
-            olines.append(("every non-isolated unknown is aggregated, every isolated one is left out",
-                           "%s.is o.isolated %s %s %s" % (base, tok["A"], tok["P"], fmt_q(eps * eps))))
-        if "C" in L:
-            if coarsening == "aggregation":
-                sc = F(1) / F(c.kv.get("precond.coarsening.over_interp", "3/2")); tol = F(0)
+        eps = F(c.kv.get("precond.coarsening.aggr.eps_strong", "2/25"))
+        if coarsening == "smoothed_aggregation": eps = eps / 2**li        # prm.aggr.eps_strong *= 0.5 per level
+        if K:
+            # the near-null space every rank holds when the level is coarsened covers exactly its rows of the level,
+            # and it is the coarse near-null space computed one level up (also across the repartitioning)
+            if not all(k in L for k in "BN"): return fail("level has the near-null space B and the coarse one N", got=list(L))
+            ia = lvl_idx[li]; ib = ia + 1
+            ctx["stats"]["oracle_checks"] += 1
+            if strip_rows(ib) != strip_rows(ia):
+                fail("near-null space is distributed like the rows of the level", level=li, got=dict(B_rows=strip_rows(ib), A_rows=strip_rows(ia)))
+                break
+            if li == 0:
+                Bin = [[(k, c.B[i * K + k]) for k in range(K)] for i in range(c.n)]
+                if sorted_rows(L["B"][2]) != Bin: fail("finest near-null space is the one passed in", got=li)
             else:
-                sc = F(1); tol = F(1, 10**9)
+                olines.append(("near-null space of the level = coarse near-null space of the level above",
+                               "%s.nb o.same %s %s" % (base, crs_tok(*levels[li - 1]["N"]), tok["B"])))
+        if coarsening == "aggregation":
+            if K:
+                scaleB = max([abs(v) for rw in L["B"][2] for _, v in rw] + [F(1)])
+                olines.append(("aggregates partition the unknowns (whole non-empty aggregates of nullspace.cols columns)",
+                               "%s.pa o.nspart %d %s" % (base, K, tok["P"])))
+                olines.append(("near-null space reproduced: P_tent B_coarse = B on every aggregated row",
+                               "%s.nr o.nsrepro %s %s %s %s" % (base, tok["P"], tok["N"], tok["B"], fmt_q(scaleB / 10**9))))
+                olines.append(("orthonormal columns of P_tent", "%s.no o.nsortho %d %s %s" % (base, K, tok["P"], fmt_q(F(1, 10**9)))))
+            else:
+                olines.append(("aggregates partition the unknowns (no empty aggregate, one unit entry per aggregated row)",
+                               "%s.pa o.partition %s" % (base, tok["P"])))
+            if bs == 1:
+                olines.append(("every non-isolated unknown is aggregated, every isolated one is left out",
+                               "%s.is o.isolated %s %s %s" % (base, tok["A"], tok["P"], fmt_q(eps * eps))))
+            else:
+                olines.append(("the unknowns of one point are in the same aggregate",
+                               "%s.br o.blockrows %d %d %s" % (base, max(K, 1), bs, tok["P"])))
+        if "C" in L:
+            if coarsening == "aggregation" and not K:
+                sc = F(1) / F(c.kv.get("precond.coarsening.over_interp", "3/2")); tol = F(0)
+            elif coarsening == "aggregation":
+                sc = F(1) / F(c.kv.get("precond.coarsening.over_interp", "3/2"))
+                tol = max([abs(v) for rw in L["C"][2] for _, v in rw] + [F(1)]) / 10**9
+            else:
+                sc = F(1); tol = max([abs(v) for rw in L["C"][2] for _, v in rw] + [F(1)]) / 10**9
             olines.append(("coarse matrix = scale * R A P", "%s.ga o.galerkin %s %s %s %s %s %s" %
                            (base, tok["A"], tok["P"], tok["R"], tok["C"], fmt_q(sc), fmt_q(tol))))
             if li + 1 < len(levels):
@@ -236,6 +378,80 @@ def check_solve(line, out, np_, olines, fails, ctx):
                                "%s.nx o.same %s %s" % (base, tok["C"], crs_tok(*levels[li + 1]["A"]))))
 
 def sorted_rows(rows): return [sorted(rw) for rw in rows]
+
+
+def owner_neighbours(P, parts, na):
+    """max over the ranks of the number of OTHER ranks that have rows in the rank's aggregates"""
+    n, m, rows = P
+    rank_of_row = [k for k, w in enumerate(parts) for _ in range(w)]
+    cb = [0]
+    for w in na: cb.append(cb[-1] + w)
+    def owner(col):
+        for k in range(len(na)):
+            if cb[k] <= col < cb[k + 1]: return k
+        return -1
+    contrib = {}
+    for i, rw in enumerate(rows):
+        if not rw: continue
+        o = owner(rw[0][0])
+        if o != rank_of_row[i]: contrib.setdefault(o, set()).add(rank_of_row[i])
+    return max([len(v) for v in contrib.values()] + [0])
+
+
+def ns_stat(ctx, key, k=1):
+    ctx["stats"]["by_op"][key] = ctx["stats"]["by_op"].get(key, 0) + k
+
+
+def check_pmis(line, out, np_, olines, fails, ctx):
+    c = Cfg(line)
+    def fail(what, **kw):
+        fails.append(dict(kind="counterexample", case=line, impl=(out or "")[:4000], model=None, op=c.op, size=len(line), np=np_,
+                          oracle=dict(op=what, **kw), theorem="C12 %s (%d ranks)" % (what, np_)))
+    if out is None or out.startswith("CRASH"): return fail("terminates on all ranks (no hang / crash)", got=out)
+    per = out.split(" ; ")
+    if len(per) != np_ or any(p.startswith("EXC") for p in per): return fail("no exception on any rank", got=[p[:200] for p in per])
+    ms = [PMIS_RE.match(p) for p in per]
+    if not all(ms) or any(w in p for p in per for w in ("nan", "inf")): return fail("well-formed finite report", got=[p[:120] for p in per])
+    K = c.K; bs = int(c.kv.get("block_size", "1")); eps = F(c.kv.get("eps_strong", "2/25"))
+    na = [int(m.group(1)) for m in ms]
+    try:
+        P = assemble([m.group(2) for m in ms]); S = assemble([m.group(4) for m in ms])
+        N = assemble([m.group(3) for m in ms]) if K else None
+    except Exception as e: return fail("strips assemble", got=str(e))
+    ctx["stats"]["oracle_checks"] += 1
+    if P[0] != c.n or P[1] != sum(na): return fail("P_tent has one row per unknown and the ranks' aggregates as columns", got=(P[0], P[1], na))
+    if K and [int(m.group(3)[1:].split(" ", 1)[0]) for m in ms] != na:
+        return fail("every rank holds the coarse near-null space of its own aggregates", got=na)
+    # evidence: how many cases had an aggregate owner with members from >= 2 (>= 3) other ranks
+    mx = owner_neighbours(P, c.parts, na)
+    if K >= 2 and mx >= 2: ns_stat(ctx, "ns_cases_cols>=2_owner_with>=2_contributing_ranks")
+    if K >= 2 and mx >= 3: ns_stat(ctx, "ns_cases_cols>=2_owner_with>=3_contributing_ranks")
+    if mx >= 2: ns_stat(ctx, "pmis_cases_owner_with>=2_contributing_ranks")
+    tokP = crs_tok(*P); tokA = c.A
+    if K:
+        tokB = crs_tok(c.n, K, [[(k, c.B[i * K + k]) for k in range(K)] for i in range(c.n)])
+        scaleB = max([abs(v) for v in c.B] + [F(1)])
+        olines.append(("aggregates partition the unknowns (whole non-empty aggregates of nullspace.cols columns)",
+                       "%s.pa o.nspart %d %s" % (c.cid, K, tokP)))
+        olines.append(("near-null space reproduced: P_tent B_coarse = B on every aggregated row",
+                       "%s.nr o.nsrepro %s %s %s %s" % (c.cid, tokP, crs_tok(*N), tokB, fmt_q(scaleB / 10**9))))
+        olines.append(("orthonormal columns of P_tent", "%s.no o.nsortho %d %s %s" % (c.cid, K, tokP, fmt_q(F(1, 10**9)))))
+    else:
+        olines.append(("aggregates partition the unknowns (no empty aggregate, one unit entry per aggregated row)",
+                       "%s.pa o.partition %s" % (c.cid, tokP)))
+    if bs == 1:
+        olines.append(("every non-isolated unknown is aggregated, every isolated one is left out",
+                       "%s.is o.isolated %s %s %s" % (c.cid, tokA, tokP, fmt_q(eps * eps))))
+    else:
+        olines.append(("the unknowns of one point are in the same aggregate",
+                       "%s.br o.blockrows %d %d %s" % (c.cid, max(K, 1), bs, tokP)))
+        # a point is left out exactly when its rows have no strong connection (pattern of pmis::conn) to another point
+        ctx["stats"]["oracle_checks"] += 1
+        for ip in range(c.n // bs):
+            conn = any(col // bs != ip for k in range(bs) for col, _ in S[2][ip * bs + k])
+            agg = any(P[2][ip * bs + k] for k in range(bs))
+            if conn != agg:
+                fail("every non-isolated point is aggregated, every isolated one is left out", point=ip); break
 
 
 def check_direct(line, out, np_, olines, fails, ctx):
@@ -288,7 +504,7 @@ def run(ctx, cases_override=None):
             o = impl.get(cid)
             if o is None and crashed: continue           # not run: an earlier case of its shard hung / crashed
             try:
-                (check_solve if op == "solve" else check_direct)(l, o, np_, olines, fails, ctx)
+                {"solve": check_solve, "pmis": check_pmis, "direct": check_direct}[op](l, o, np_, olines, fails, ctx)
             except Exception as e:
                 fails.append(dict(kind="counterexample", case=l, impl=(o or "")[:3000], model=None, op=op, size=len(l), np=np_,
                                   oracle=dict(op="well-formed report", error=repr(e)[:300]),
